@@ -37,7 +37,7 @@ func checkEngine(id, tier, replay string) int {
 		rep.Assumptions = []string{"nothing beyond the five rules of the statement is demanded; other irregularities are recorded as anomalies"}
 	case "C07":
 		rep.Rule = fmt.Sprintf("%d seeded pairs per device type %v with an unmanaged layer mixed into the device (NSX: policies, groups, services without the Netspoc prefix, also referenced from Netspoc rules). "+
-			"After every executed command the unmanaged projection of the model must be unchanged. Every 4th NSX pair is a complete live approve against the simulator backed by the model, with foreign ids that contain the prefix elsewhere, differ in case or extend it. Non-trivial = non-empty script executed on a device that holds unmanaged content.", n, types)
+			"After every executed command the unmanaged projection of the model must be unchanged. Every 4th NSX and PAN-OS pair is a complete live approve against the simulator backed by the model, with foreign ids that contain the prefix elsewhere, differ in case or extend it. Non-trivial = non-empty script executed on a device that holds unmanaged content.", n, types)
 	}
 	base := env.Seed*1000003 + 500000
 	total := len(types) * n
@@ -46,12 +46,16 @@ func checkEngine(id, tier, replay string) int {
 		g := genPair(typ, base+int64(i/len(types)))
 		o := runConv(env, g, false)
 		live := ""
-		if typ == "nsx" && (i/len(types))%4 == 1 {
+		if (typ == "nsx" || typ == "panos") && (i/len(types))%4 == 1 {
 			// Live session: what counts as the tool's own objects is
 			// decided by its live loading code, not by the harness.
-			o = runConvLiveNSX(env, g)
+			if typ == "nsx" {
+				o = runConvLiveNSX(env, g)
+			} else {
+				o = runConvLivePANOS(env, g)
+			}
 			live = "live:"
-			rep.Count("live_sessions_nsx", 1)
+			rep.Count("live_sessions_"+typ, 1)
 		}
 		nontrivial := o.Nontrivial && (id != "C08" || len(o.Commands) >= 2)
 		rep.Case(run.Hash(live, g.Device, fmt.Sprint(g.Files)), nontrivial)
